@@ -297,6 +297,22 @@ def run(ctx):
 
     def owned_vector_of(f, n):
         """n constructs a std::vector from the parameter (copy / move / iterator pair over it)"""
+        # (the copy may be a named local that is then moved into the adaptor: `std::vector<T> snapshot(list); return enumerate(std::move(snapshot));`)
+        u = ir.unwrap(n)
+        while isinstance(u, dict) and u.get("k") == "call" and (u.get("name") or "") in ("std::move", "std::forward") and len(u.get("args", [])) == 1:
+            u = ir.unwrap(u["args"][0])
+        if isinstance(u, dict) and u.get("k") == "ref" and str(u.get("decl", "")).startswith("local:"):
+            ds = [v for _, _, e in f.roots() if e["expr"].get("k") == "decl" for v in e["expr"].get("vars", []) if v["name"] == u["decl"][6:]]
+            if len(ds) == 1 and "vector<" in (ds[0].get("type") or "") and not (ds[0].get("type") or "").rstrip().endswith("&") and not ds[0].get("static") and ds[0].get("init") is not None:
+                i0 = ir.unwrap(ds[0]["init"])
+                args0 = i0.get("args") if isinstance(i0, dict) and i0.get("k") == "construct" else (i0.get("elems") if isinstance(i0, dict) and i0.get("k") in ("paren_list", "init_list") else None)
+                if args0 is None and param_of(f, i0) == 0:
+                    return True  # `std::vector<T> snapshot(list);` - the parenthesised initialiser reads as the parameter itself
+                if args0 is not None and len(args0) == 1 and param_of(f, args0[0]) == 0:
+                    return True
+                if args0 is not None and len(args0) == 2 and bound_of(args0[0], "begin", lambda o: is_param(f, o)) is not None and bound_of(args0[1], "end", lambda o: is_param(f, o)) is not None:
+                    return True
+            return False
         ps = pieces(n)
         if ps is None or "vector" not in ctor_name(n):
             return False
